@@ -149,6 +149,8 @@ pub struct ReplayFile {
     pub n_decisions: usize,
     pub n_nonzero: usize,
     pub stale_sites: Vec<String>,
+    #[serde(default)]
+    pub markers: Vec<String>,
     pub case: scen::Case,
     pub picks: String,
 }
@@ -372,6 +374,7 @@ fn cmd_worker(args: &[String]) {
                 n_decisions: r.trace.len(),
                 n_nonzero: r.trace.iter().filter(|d| d.pick != 0).count(),
                 stale_sites: stale_sites(&r.out),
+                markers: world::w(|w| w.markers.clone()),
                 case: case.clone(),
                 picks: encode_picks(&r.trace),
             };
